@@ -6,6 +6,7 @@ from typing import List
 
 from harness.lib.core import VERIF, Ctx, lean_lock, run_driver, shrink_ops
 from harness.extract import agents as x_agents
+from harness.extract import agents_ctl as x_ctl
 from harness.rigs import agents as rig
 
 MANIFEST = {
@@ -27,13 +28,22 @@ MANIFEST = {
             "order); a constructed TAP003's starting knowledge covers every host it is told to log into (settings validator modelled); "
             "EXPLOIT.probability<=0 => the chain never SUCCEEDS; PeriodicAgent / DataManipulationAgent return exactly node-application-execute of "
             "the configured application on one node of possible_start_nodes; numpy's binary search equals the model's linear scan on the exact cdf "
-            "and the cdf of non-negative probabilities is sorted. RandomAgent returns the sampled entry of its action map. Tie: enums, dispatch order, comparators, defaults, the "
+            "and the cdf of non-negative probabilities is sorted. A CONSTRUCTED TAP003 (settings validator passed) fed well-formed responses (a failure "
+            "carries data['reason'], a success the login data) NEVER RAISES, for every draw and response sequence of any length (invariant: next = "
+            "successor(current); the knowledge covers every account-change host and ACL router once PLANNING has run, preserved by both password-"
+            "change updates; ACL index in range), hence it reaches every next execution slot without escape clause; the same holds assuming only what the simulator's "
+            "two response construction sites give (do-nothing answered success; a successful remote login carries ip_address/username — tied by C19_gen_resp_wf_sites and "
+            "checked on every real response of the scenario sweep; nothing assumed of failed responses: in PLANNING the looked-back action is always a do-nothing). RandomAgent returns the sampled entry of its action map. "
+            "The control methods _tap_outcome_handler, _tap_start, _tap_return_handler, _agent_trial_handler and both _progress_kill_chain are TRANSLATED "
+            "statement by statement (Gen/AgentsCtl.lean) and proved equal to the model functions on every state (C19_gen_ctl_*: a meaning-preserving "
+            "rewrite keeps them). Tie: enums, dispatch order, comparators, defaults, the "
             "vector shape, get_action signatures, the empty-history guard, the EXPLOIT trial guard, the source expression of every TAP "
             "action parameter (one table that also defines the model's values), the settings dicts they read, where current_host is "
             "assigned, _select_start_node/_select_target_ip and the writers of actions_concluded are regenerated from the sources "
             "(Gen/Agents.lean, obligations C19_gen_*) + differential rig R-agent feeding the real agents timesteps, prescribed draws and "
             "synthetic responses and comparing the FULL action (name and every parameter) and the kill-chain state with the model at "
-            "every step, plus property oracles on agent.history in the shipped UC2 / UC7 scenarios under random blue actions.",
+            "every step, an implementation-side oracle 'a validated TAP003 with well-formed responses does not raise', plus property oracles on "
+            "agent.history in the shipped UC2 / UC7 scenarios under random blue actions.",
     "note": "C19-specific: numpy's Generator.choice and random.randint/choice/random are modelled, not verified (the never-zero theorem for "
             "the binary search assumes only a total order without NaN, x+0=x, 0/x=0 and a sorted cdf); probabilities in the rig are "
             "dyadic so that float comparison is exact (sums off 1 by multiples of 2^-30); the live-host list a ping scan returns is "
@@ -41,7 +51,7 @@ MANIFEST = {
     "technique": "Lean 4 theorems over executable agent models; models tied by regenerated tables and a differential rig",
     "design_ref": "5/C19",
 }
-MODULES = ["PrimaiteModel.Props.C19", "PrimaiteModel.Props.C19Sched", "PrimaiteModel.Props.C19Run", "PrimaiteModel.Props.C19Params", "PrimaiteModel.Props.C19Sampler", "PrimaiteModel.Props.C19Nodes", "PrimaiteModel.Props.C19More", "PrimaiteModel.Props.C19Live"]
+MODULES = ["PrimaiteModel.Props.C19", "PrimaiteModel.Props.C19Sched", "PrimaiteModel.Props.C19Run", "PrimaiteModel.Props.C19Params", "PrimaiteModel.Props.C19Sampler", "PrimaiteModel.Props.C19Nodes", "PrimaiteModel.Props.C19More", "PrimaiteModel.Props.C19Live", "PrimaiteModel.Props.C19NoRaise", "PrimaiteModel.Props.C19Wf", "PrimaiteModel.Props.C19Ctl"]
 EXE = "drv_c19"
 KINDS = ["periodic", "prob", "probn", "tap1", "tap3", "rand"]
 
@@ -110,6 +120,7 @@ def _gen_obligations(ctx: Ctx):
 def run(ctx: Ctx):
     with lean_lock():
         ctx.extract("Agents", x_agents.emit)
+        ctx.extract("AgentsCtl", x_ctl.emit)
         ctx.prove(MODULES, exes=[EXE], clean=False, leanchecker=ctx.thorough)
     _gen_obligations(ctx)
     ctx.cov["rule"] = ("cases = (agent kind in {periodic, data-manipulation, probabilistic, TAP001, TAP003, random}, settings, prescribed draws, "
@@ -165,6 +176,18 @@ def run(ctx: Ctx):
             rig_ok = False
             ctx.oblige(f"rig:draw-ranges:{name}", "correspondence", False, p)
         a, b = rig.normalise(case, impl, model)
+        # property oracle on the implementation alone, licensed by theorem C19_tap3_validated_never_raises: a TAP003 whose
+        # settings were accepted and whose responses are well formed (a failure carries a reason, a success the login data)
+        # never raises, whatever the draws and responses
+        if kind == "tap3" and impl and impl[0].startswith("ok") and (all(_wf_resp(st["resp"]) for st in case["steps"]) or _sim_ok(case, impl)):
+            ctx.count("tap3:validated+well-formed cases (no-raise oracle applies)")
+            if not all(_wf_resp(st["resp"]) for st in case["steps"]):
+                ctx.count("tap3:… of which only SimOk holds (failed responses without a reason; theorem …_never_raises_sim)")
+            j = next((j for j, l in enumerate(impl) if l == "raised"), -1)
+            if j >= 1:
+                ctx.violation({"kind": "oracle", "agent": "tap3", "what": "validated-agent-raised"},
+                              f"TAP003 ({name}) accepted its settings, got only well-formed responses and raised in step {j - 1}",
+                              {"case": _truncate(case, j), "from": name})
         # property oracle evaluated on the implementation alone
         if kind in ("prob", "probn"):
             bad = _oracle_prob(case, a)
@@ -201,6 +224,25 @@ def run(ctx: Ctx):
         sc = None
     if sc is not None:
         sc.run_all(ctx)
+
+
+def _wf_resp(r: dict) -> bool:
+    """`Tap3.Resp.wf`."""
+    return (r["ok"] or r.get("hasReason", True)) and ((not r["ok"]) or r.get("hasLoginData", True))
+
+
+def _sim_ok(case: dict, impl: List[str]) -> bool:
+    """`Tap3.RunSimOk` on the implementation's own actions: every do-nothing was answered with success, every successful
+    remote login with its data (up to the first raise, whose own response is never read)."""
+    for j, st in enumerate(case["steps"]):
+        if j + 1 >= len(impl) or impl[j + 1] == "raised":
+            break
+        act, r = impl[j + 1].split()[0], st["resp"]
+        if act == "do-nothing" and not r["ok"]:
+            return False
+        if act == "node-session-remote-login" and r["ok"] and not r.get("hasLoginData", True):
+            return False
+    return True
 
 
 def _nontrivial(kind: str, case: dict, impl: List[str]) -> bool:
